@@ -119,14 +119,15 @@ def case_graph(case):
 def call(case):
     """Run the function of the tree under check on the case. Returns (result, exception)."""
     from solvor.mst import kruskal, prim
+    from checks.guard import guarded
     try:
         if case["fn"] == "kruskal":
-            return kruskal(case["n"], [tuple(e) for e in case["edges"]], allow_forest=case["allow_forest"],
+            return guarded("kruskal", kruskal, case["n"], [tuple(e) for e in case["edges"]], allow_forest=case["allow_forest"],
                            backend="python"), None, None
         g, lab = prim_graph(case)
         if case["start"] is None:
-            return prim(g), None, lab
-        return prim(g, start=lab[case["start"]]), None, lab
+            return guarded("prim", prim, g), None, lab
+        return guarded("prim", prim, g, start=lab[case["start"]]), None, lab
     except Exception as e:  # noqa: BLE001 - any exception is a contract violation ("each return ...")
         return None, e, None
 
